@@ -32,6 +32,9 @@ def opt_sets():
         # sub-rules violated, sub-inspections failing
         {"p_sub": 0.6, "max_depth": 2, "rule_violation": True, "insp_fail": True, "vary_keys": False,
          "link_variants": ["honest"], "sub_variants": ["honest"]},
+        # ... with the API-only option persist_inspection_links=False at the top: what is checked below does not depend on it
+        {"p_sub": 0.7, "max_depth": 2, "insp_fail": True, "vary_keys": False, "deviate": False, "persist": False,
+         "link_variants": ["honest"], "sub_variants": ["honest"]},
         {"p_sub": 0.6, "max_depth": 2, "format": "mb", "sub_variants": SUB_BAD, "insp_fail": True},
         {"p_sub": 0.6, "max_depth": 2, "format": "dsse", "sub_variants": SUB_BAD, "rule_violation": True},
         # empty sublayouts (no steps): the empty summary link
